@@ -15,7 +15,7 @@ theorem same_ws_e_b {be bc : Buf} (h : Same be.rev bc.rev) {p : Bytes} (hp : F p
 
 theorem writeComment_same (q : WQuirks) (text : Bytes) {be bc : Buf} (h : Same be.rev bc.rev) :
     Same (writeComment q .expanded text be).rev (writeComment q .compressed text bc).rev := by
-  by_cases hh : text.head? = some 35
+  by_cases hh : skipComment text = true
   · simp only [writeComment, hh, if_true, Buf.addOne]
     exact same_addStr_b h (by decide)
   · simp only [writeComment, hh, if_false, Buf.addOne]
